@@ -615,6 +615,13 @@ class CEval(object):
         v = self.ev(n.args[0])
         return SV(TBool, App('int_ok', (v.t,), BOOL))
 
+    def i_int_of(self, n):
+        # the integer a text denotes (meaningful when int_ok(text)): what int(text) returns
+        from . import strings
+        strings._decl_parsers()
+        v = self.ev(n.args[0])
+        return SV(TInt, App('int_of', (v.t,), INT))
+
     def i_real(self, n):
         v = self.ev(n.args[0])
         return SV(TFloat, smt.ToReal(v.t))
